@@ -268,7 +268,7 @@ pub fn gen_worker(ctx: &mut Ctx, prop: &str) {
     verif::reset_counters();
     let _ = verif::take_events();
     let n: u64 = match prop {
-        "C01" => ctx.tier.pick(220, 4000),
+        "C01" => ctx.tier.pick(640, 6000),
         _ => ctx.tier.pick(90, 1200),
     };
     let seed = ctx.seed;
